@@ -531,8 +531,8 @@ func forkVariants(b *Builder, con interface{ Attr(string) string }, p *geval.Pat
 			key = "o-fork.canEqual(" + t.R().Desc + ")"
 		}
 		if ws[0] == "nilable" {
-			if f := p.Facts[t.R()]; f != nil && f.Kind != geval.KUnknown {
-				continue // the path knows the kind already
+			if f := p.Facts[t.R()]; f != nil && (f.Kind != geval.KUnknown || impliedNilable(f)) {
+				continue // the path knows the kind already (or has excluded every kind without nil)
 			}
 			key = "o-fork.Nilable(" + t.R().Desc + ")"
 		}
